@@ -17,6 +17,8 @@ reopen contract:
   R4  a read-only reopen (`map_in`: map, map_copy_read_only) returns the same layout with read_only = true and the
       freelist kind *read from the file* (the Ok value of sanity_check called with no expectation); no store, no
       set_len on any path.
+  R6  Options::open reports an existing file as existing and does not resize it; R7s/R7u Arena::from(Memory) copies the
+      Memory's values; R8 the explicit flush family stores nothing and changes neither file length nor Memory fields.
   R5  `unmount` (drop of the last handle) of a file-backed arena that is not marked remove-on-drop performs no
       store into the mapping and no set_len/remove/truncate; it releases the mapping (Box::from_raw of the map
       object) and, for the writable backend, calls File::sync_all afterwards.
@@ -617,6 +619,60 @@ def check_arena_from(mir_text, src, flavour):
                  holds=not viol, witnesses=viol[:4])]
 
 
+def check_flush(mir_text, src):
+    """R8: the explicit flush family only ever asks the map object to write back: no store into the mapping, no file-level mutator,
+    so "with or without an explicit flush" cannot change what a later reopen finds"""
+    types = struct_field_types(src, "memory.rs", "Memory")
+    viol = []
+    done = []
+    total_paths = 0
+    fname0 = None
+    for pat in ("flush", "flush_async", "flush_range", "flush_async_range", "flush_header_and_range", "flush_async_header_and_range"):
+        def init(ex, prog, fr):
+            names = prog.structs.get(("memory", "Memory"))
+            be = prog.enums.get("MemoryBackend")
+            if not names or not be:
+                raise Unsupported("Memory / MemoryBackend declarations not found")
+            d = z3.BitVec("backend_discr", 64)
+            ex.side.append(z3.ULT(d, len(be)))
+            vals = []
+            for n in names:
+                if n == "backend":
+                    vals.append(Enum("MemoryBackend", d, {i: Lazy("backend.%s" % v) for i, v in enumerate(be)}))
+                else:
+                    vals.append(ex.synth(types.get(n, "?"), "self." + n))
+            fr.locals[900] = Tup(vals)
+            fr.locals[1] = LocalRef(("E",), 900, [])
+            if len(fr.fn.arg_types) >= 3:
+                fr.locals[2] = z3.BitVec("offset", 64)
+                fr.locals[3] = z3.BitVec("len", 64)
+            return {"before": vals}
+        try:
+            prog, ex, ends, ctx, fname = explore(mir_text, src, r"^memory::<impl at [^>]*>::%s$" % pat, init)
+        except Unsupported as u:
+            viol.append({"function": pat, "why": "not explored: %s" % u})
+            continue
+        fname0 = fname0 or fname
+        n = 0
+        for e in ends:
+            if e.kind != "done":
+                continue
+            n += 1
+            effs = e.stack[0].locals.get("EFF", ())
+            for x in effs:
+                if x["kind"] == "write" or "set_len" in x["func"] or any(m in x["func"] for m in FILE_MUTATORS):
+                    viol.append({"function": pat, "call": x["func"], "why": "an explicit flush stores into the mapping or resizes / rewrites the file"})
+            after = e.stack[0].locals[900].f
+            if any(a is not b for a, b in zip(after, ctx["before"])):
+                viol.append({"function": pat, "why": "an explicit flush changes a field of the Memory"})
+        total_paths += n
+        if n:
+            done.append(pat)
+    return [dict(function=fname0 or "memory::flush*", paths=total_paths, ok_paths=total_paths, id="R8",
+                 text="flush family (%s): no store into the mapping, no set_len / file mutator, no Memory field changed on any path" % ", ".join(done),
+                 holds=not viol, witnesses=viol[:4], vacuous=(len(done) < 6))]
+
+
 def check_unmount(mir_text, src):
     def init(ex, prog, fr):
         names = prog.structs.get(("memory", "Memory"))
@@ -700,6 +756,7 @@ def main():
         out["obligations"] += check_open(mir_text, src, "map_in", r"::map_in$", True)
         out["obligations"] += check_unmount(mir_text, src)
         out["obligations"] += check_file_open(mir_text, src)
+        out["obligations"] += check_flush(mir_text, src)
         out["obligations"] += check_arena_from(mir_text, src, "sync")
         out["obligations"] += check_arena_from(mir_text, src, "unsync")
     except Unsupported as e:
